@@ -280,10 +280,16 @@ func waitIdle(l *loopInst) {
 	ok := 0
 	for time.Now().Before(deadline) {
 		dlF, _, dcF, _ := l.r.VerifFree()
+		l.fs.mu.Lock()
+		failing := l.fs.failLoads > 0
+		l.fs.mu.Unlock()
 		settled, blocked := true, false
 		for _, d := range l.r.VerifDownloaders() {
 			switch {
 			case d[0] == "idle" && d[1] == "nosignal":
+			case failing && d[0] != "decoding" && d[0] != "wantDc":
+				// downloads keep failing: the downloader retries without getting anywhere
+				blocked = true
 			case d[0] == "wantDl" && dlF == 0:
 				blocked = true
 			case d[0] == "wantDc" && dcF == 0:
